@@ -1159,7 +1159,9 @@ def run_unicode_sym(case, ctx):
 # ---------------------------------------------------------------------------------------------
 QUOTE_WORDS = ["don't panic", "it's \"x", '"open', "a 'b", "''' x", 'say "hi']
 OPTION_WORDS = ['-existing-file', '-existing-dir', '-existing-path', '-python', '-rel-act', '-contents-of', '-stdout-from',
-                '-stderr-from', '-transformed-by', '-stdin', '-ignore-exit-code', '-rel-home']
+                '-stderr-from', '-transformed-by', '-stdin', '-ignore-exit-code', '-rel-home',
+                # quoted look-alikes of the markers that start a text-until-end-of-line / a here-document
+                ':>', '<<EOF', '<<', '-rel']
 
 
 def _quote_follow_cases():
